@@ -6,6 +6,7 @@ import (
 	"fmt"
 	"regexp"
 	"strings"
+	"sync"
 
 	"github.com/lidofinance/dc4bc/client/types"
 	sif "github.com/lidofinance/dc4bc/fsm/state_machines/signing_proposal_fsm"
@@ -44,11 +45,28 @@ func c18(tier string, args []string) int {
 	}
 	nt := ntPair{3, 2}
 	rec := getRecording(r, nt.n, nt.t)
+	// the three entry points are explored concurrently (separate nodes / machines / routers)
 	classes := map[string]bool{}
 	evals := 0
-	c18Board(r, rec, tier, classes, &evals)
-	c18Airgapped(r, rec, tier, classes, &evals)
-	c18API(r, rec, tier, classes, &evals)
+	parts := []func(*kit.Run, *world.Recording, string, map[string]bool, *int){c18Board, c18Airgapped, c18API}
+	partClasses := make([]map[string]bool, len(parts))
+	partEvals := make([]int, len(parts))
+	var pwg sync.WaitGroup
+	for i := range parts {
+		partClasses[i] = map[string]bool{}
+		pwg.Add(1)
+		go func(i int) {
+			defer pwg.Done()
+			parts[i](r, rec, tier, partClasses[i], &partEvals[i])
+		}(i)
+	}
+	pwg.Wait()
+	for i := range parts {
+		evals += partEvals[i]
+		for c := range partClasses[i] {
+			classes[c] = true
+		}
+	}
 	r.Set("evaluations", evals)
 	r.Set("distinct_nontrivial", len(classes))
 	r.Set("rule", "every (state, genuine input, single structure-aware mutation) triple is executed on the real entry point (NodeService.ProcessMessage / Machine.ProcessOperation / the echo router) under recover(); distinct = (entry point, event or operation type, field path class, mutation kind)")
@@ -69,7 +87,32 @@ func c18Board(r *kit.Run, rec *world.Recording, tier string, classes map[string]
 		senderKey[nd.Name] = nd.KeyPair.Priv
 	}
 	sampled := 0
+	var vmu sync.Mutex
+	var vwg sync.WaitGroup
+	outerClasses, outerEvals := classes, evals
 	for _, v := range views {
+		v := v
+		vwg.Add(1)
+		go func() {
+			defer vwg.Done()
+			classes := map[string]bool{}
+			n := 0
+			evals := &n
+			c18BoardView(r, rec, tier, v, senderKey, classes, evals, &vmu, &sampled)
+			vmu.Lock()
+			*outerEvals += n
+			for c := range classes {
+				outerClasses[c] = true
+			}
+			vmu.Unlock()
+		}()
+	}
+	vwg.Wait()
+}
+
+func c18BoardView(r *kit.Run, rec *world.Recording, tier string, v int, senderKey map[string]ed25519.PrivateKey, classes map[string]bool, evals *int, vmu *sync.Mutex, sampledP *int) {
+	w := rec.W
+	{
 		lab, err := NewLabFor(w, v)
 		if err != nil {
 			r.Infra("lab: %v", err)
@@ -157,10 +200,12 @@ func c18Board(r *kit.Run, rec *world.Recording, tier string, classes map[string]
 					cls := fmt.Sprintf("board|%s|%s", g.Event, mu.Label)
 					classes[cls] = true
 					trace := map[string]interface{}{"entry": "NodeService.ProcessMessage", "base": bs.String(), "genuine_offset": j, "event": g.Event, "mutation": mu.Label}
-					if sampled < 2 {
-						sampled++
+					vmu.Lock()
+					if *sampledP < 2 {
+						*sampledP++
 						r.Sample(trace)
 					}
+					vmu.Unlock()
 					if pe, ok := err.(*PanicError); ok {
 						r.Violation("C18/panic/board/"+pe.Site, fmt.Sprintf("ProcessMessage panicked (in %s) in state %s on %s with %s: %v", pe.Site, bs, g.Event, mu.Label, pe.V), trace)
 						continue
